@@ -198,22 +198,32 @@ structure St where
   pw : Nat → Option WT := fun _ => none
   /-- ghost: broadcast want requested since the last cancel -/
   bw : Nat → Bool := fun _ => false
+  /-- run loop: a token is waiting in `outgoingWork` (signalWorkReady) -/
+  sig : Bool := false
+  /-- run loop: `hasWorkChan` is non-nil (the loop listens for work signals) -/
+  loopOn : Bool := true
+  /-- run loop: the `scheduleWork` debounce timer is armed (it re-enables `hasWorkChan` when it fires) -/
+  armed : Bool := false
+  /-- run loop: the current sendMessage call was started by a work signal (`case <-hasWorkChan`) -/
+  byWake : Bool := false
 
 /-! ### producer calls (each holds wllock throughout) -/
 
 def addPeerWant (s : St) (t : WT) (c : Nat) : St :=
   { s with
     q := { s.q with peer := { s.q.peer with pending := s.q.peer.pending.add c s.q.prio t }, prio := s.q.prio - 1 }
-    pw := fun x => if x = c then (if t = .block ∨ s.pw c = some .block then some .block else some .have) else s.pw x }
+    pw := fun x => if x = c then (if t = .block ∨ s.pw c = some .block then some .block else some .have) else s.pw x
+    sig := true }
 
-/-- AddWants(wantBlocks, wantHaves): the want-haves are added first -/
+/-- AddWants(wantBlocks, wantHaves): the want-haves are added first; signalWorkReady unless both lists are empty -/
 def addWants (s : St) (bs hs : List Nat) : St :=
   bs.foldl (addPeerWant · .block) (hs.foldl (addPeerWant · .have) s)
 
 def addBcstWant (s : St) (c : Nat) : St :=
   { s with
     q := { s.q with bcst := { s.q.bcst with pending := s.q.bcst.pending.add c s.q.prio .have }, prio := s.q.prio - 1 }
-    bw := fun x => if x = c then true else s.bw x }
+    bw := fun x => if x = c then true else s.bw x
+    sig := true }
 
 /-- AddBroadcastWantHaves -/
 def addBcast (s : St) (cs : List Nat) : St := cs.foldl addBcstWant s
@@ -228,7 +238,8 @@ def cancelOne (s : St) (c : Nat) : St :=
     q := { s.q with bcst := s.q.bcst.remove c, peer := s.q.peer.remove c,
                     cancels := if was then insertSorted c s.q.cancels else s.q.cancels }
     pw := fun x => if x = c then none else s.pw x
-    bw := fun x => if x = c then false else s.bw x }
+    bw := fun x => if x = c then false else s.bw x
+    sig := s.sig || was }
 
 /-- AddCancels -/
 def addCancels (s : St) (cs : List Nat) : St := cs.foldl cancelOne s
@@ -305,6 +316,16 @@ def markOne (m : MarkSt) (e : Ent) : MarkSt :=
 def pruneOne (km : List Nat × Msg) (c : Nat) : List Nat × Msg :=
   if km.1.contains c then (km.1.filter (· != c), km.2) else (km.1, km.2.remove c)
 
+/-- pendingWorkCount -/
+def workCount (q : Q) : Nat := q.bcst.pending.length + q.peer.pending.length + q.cancels.length
+
+/-- sendMessage returns to runQueue; after `case <-hasWorkChan` the loop stops listening for work
+signals and arms the debounce timer. `work` = signalWorkReady is called before returning. -/
+def returnToLoop (s : St) (work : Bool) : St :=
+  { s with ph := .idle, sig := s.sig || work,
+           loopOn := if s.byWake then false else s.loopOn, armed := if s.byWake then true else s.armed,
+           byWake := false }
+
 /-- phase C -/
 def doMark (s : St) : St :=
   match s.ph with
@@ -312,8 +333,10 @@ def doMark (s : St) : St :=
     let m1 := pe.foldl markOne { r := s.q.peer, cancels := s.q.cancels, msg := msg, marked := [] }
     let m2 := be.foldl markOne { r := s.q.bcst, cancels := m1.cancels, msg := m1.msg, marked := [] }
     let km := cs.foldl pruneOne (m2.cancels, m2.msg)
-    { s with q := { s.q with peer := m1.r, bcst := m2.r, cancels := km.1 },
-             ph := if km.2.isEmpty then .idle else .flight m1.marked m2.marked km.2 }
+    let s' := { s with q := { s.q with peer := m1.r, bcst := m2.r, cancels := km.1 } }
+    -- `if message.Empty()`: sendMessage returns (fixed: after signalling any work that is left)
+    if km.2.isEmpty then returnToLoop s' (workCount s'.q > 0)
+    else { s' with ph := .flight m1.marked m2.marked km.2 }
   | _ => s
 
 /-- the receiving side: a cancel removes the cid, a want is added with Wantlist.Add -/
@@ -326,10 +349,12 @@ def doDeliver (s : St) : St :=
   match s.ph with
   | .flight pe be msg =>
     let now := s.clock + 1
-    { s with
+    let s' := { s with
       q := { s.q with peer := pe.foldl (fun r e => r.setSentAt e.cid now) s.q.peer,
                       bcst := be.foldl (fun r e => r.setSentAt e.cid now) s.q.bcst }
-      ph := .idle, clock := now, peerWL := recv s.peerWL msg }
+      clock := now, peerWL := recv s.peerWL msg }
+    -- below sendMessageCutoff: signal the work that is left and return; otherwise extract again at once
+    if workCount s'.q < 256 then returnToLoop s' (workCount s'.q > 0) else { s' with ph := .pre }
   | _ => s
 
 /-! ### the step system -/
@@ -344,6 +369,10 @@ inductive Ev where
   | fill (k : Nat)
   | mark
   | deliver
+  /-- runQueue: `case <-hasWorkChan` -/
+  | wake
+  /-- runQueue: `case <-scheduleWork.C` -/
+  | timer
 
 def isIdle : Phase → Bool
   | .idle => true
@@ -369,6 +398,8 @@ def enabled (cfg : Cfg) (s : St) : Ev → Prop
   | .fill _ => isSnap s.ph = true
   | .mark => isBuilt s.ph = true
   | .deliver => isFlight s.ph = true
+  | .wake => isIdle s.ph = true ∧ s.loopOn = true ∧ s.sig = true
+  | .timer => s.armed = true
   | _ => True
 
 def step (cfg : Cfg) (s : St) : Ev → St
@@ -381,6 +412,8 @@ def step (cfg : Cfg) (s : St) : Ev → St
   | .fill k => doFill cfg s k
   | .mark => doMark s
   | .deliver => doDeliver s
+  | .wake => { s with sig := false, ph := .pre, byWake := true }
+  | .timer => { s with armed := false, loopOn := true }
 
 /-- states reachable from the freshly constructed queue by any interleaving -/
 inductive Reach (cfg : Cfg) : St → Prop
